@@ -12,7 +12,7 @@ RULE = ("cases = whole programs: (a) G4 random programs (5-120 statements quick,
         "must be rejected: duplicate label, undefined symbol in each operand position; (d) second ORG / code before ORG "
         "(reject or stay loadable). Oracle = arithmetic over what hook M1 and the public listing/symbol API show: I1 next address "
         "= address + bytes emitted, I2 image = concatenation, I3 offset in image = listing address - reported origin, I4 label "
-        "value = listing address of its statement / EQU value = its constant, I6 listing hex column = bytes prefix. "
+        "value = listing address of its statement / EQU value = its constant, I7 nothing beyond $FFFF. "
         "distinct_nontrivial = distinct ACCEPTED programs on which all invariants were evaluated, plus distinct must-reject "
         "programs observed rejected.")
 ASSUMPTIONS = ["addresses are read from the public listing (Program.get_statements) and symbol table lines",
@@ -65,6 +65,14 @@ def gen_cases(tier, seed, shard, nshards):
             if "inh" in R.MODES[canon]:
                 yield {"id": "form/inh/%s" % src, "mode": "layout", "kinds": [None, "form.inh", None, None],
                        "lines": [" ORG $3000\n", " %s \n" % src, "AFTER NOP\n", " JMP AFTER\n"]}
+        # every data directive form followed by a label (zero-length and boundary sizes included)
+        for mn, ops in (("RMB", ["0", "1", "2", "255", "256", "$0", "$10", "SZ"]), ("FCB", ["0", "255", "1,2,3", "-1", "$7F,$80", "SZ"]),
+                        ("FDB", ["0", "65535", "1,2", "-1", "AFTER", "SZ"]), ("FCC", ['"A"', '""', '"HELLO WORLD"', "/a;b/", '"x"   ; c']),
+                        ("EQU", ["5"]), ("SETDP", ["$10"]), ("NAM", ["PRG"]), ("END", ["", "AFTER"])):
+            for op in ops:
+                lab = "QQ " if mn == "EQU" else " "
+                yield {"id": "data/%s/%s" % (mn, op), "mode": "layout", "kinds": [None, None, "data." + mn.lower(), None, None],
+                       "lines": [" ORG $3000\n", "SZ EQU 3\n", "%s%s %s\n" % (lab, mn, op), "AFTER NOP\n", " JMP AFTER\n"], "equs": {"SZ": 3}}
         # must-reject programs
         for mn in ("NOP", "LDA #1", "FCB 1,2", "RMB 4", "EQU 5", "FDB 1", "FCC \"AB\""):
             yield {"id": "dup/%s" % mn, "mode": "reject", "form": "duplicate-label",
@@ -117,6 +125,9 @@ def run_case(case, ctx):
         ctx.notes["not-accepted:%s:%s" % (o.exc, o.where)] += 1
         return
     ctx.mon("M1.asm-post")
+    hm = asmmon.hex_column_mismatches(o)
+    if hm:
+        ctx.notes["info:listing-hex-column-not-a-prefix-of-emitted-bytes (not judged)"] += hm
     vs = asmmon.layout_violations(o)
     syms = asmmon.parse_symbols(o.symbols)
     for name, val in (case.get("equs") or {}).items():
